@@ -149,8 +149,13 @@ def bicgstab(A, b, x0=None, tol=1e-5, criteria='rr',
         # the half step may already meet the criterion (in particular s = 0,
         # which would make omega = 0/0): accept x_j + alpha*M*p_j
         norms = norm(s)
-        if norms < rtol:
-            x = x + alpha * Mp
+        xhalf = x + alpha * Mp
+        if criteria == 'rr+':
+            rtol_half = tol * (normA * np.linalg.norm(xhalf) + normb)
+        else:
+            rtol_half = rtol
+        if norms < rtol_half:
+            x = xhalf
             it += 1
             if residuals is not None:
                 residuals.append(norms)
